@@ -55,6 +55,10 @@ type Eval struct {
 
 	// depth of the AST-node the compiler is working upon
 	depth int
+
+	// set by the compiler when an operand - a jump-target, the index of
+	// a constant, or a count - is too large for the 16 bits we have.
+	overflow bool
 }
 
 // New creates a new instance of the evaluator.
@@ -136,11 +140,21 @@ func (e *Eval) Prepare(flags ...[]byte) error {
 	e.instructions = nil
 	e.constants = nil
 	e.functions = make(map[string]environment.UserFunction)
+	e.overflow = false
 
 	//
 	// Compile the program to bytecode
 	//
 	err = e.compile(program)
+
+	//
+	// The operands of our instructions are 16 bits wide.  A program
+	// which needs more - jumps beyond 64k of bytecode, more than 64k
+	// constants - can't be represented, and must not be truncated.
+	//
+	if err == nil && e.overflow {
+		err = fmt.Errorf("the program is too large")
+	}
 
 	//
 	// If there were errors then return them.
